@@ -254,7 +254,7 @@ Print Assumptions impl_context_stack_discipline.
    as an empty registry would build it - in every registry reachable by running programs *)
 Theorem impl_context_is_receivers_instance : forall P ic rty m ic1 c md,
   cache_ok P ic -> enter P ic rty m = Some (ic1, Some c, md) ->
-  exists i, fresh_inst P rty = Some i /\ c = i_map i.
+  exists i, fresh_inst P rty = Some i /\ i_generic i = true /\ c = i_map i.
 Proof. exact enter_pushes_fresh. Qed.
 Print Assumptions impl_context_is_receivers_instance.
 
@@ -281,7 +281,8 @@ Print Assumptions impl_type_args_flat.
 
 Theorem impl_instance_binds_parameters : forall P b a k blk, ident b -> a <> [] -> Forall ident a ->
   find_generic P b (List.length a) = Some (k, blk) ->
-  fresh_inst P (show_f (FApp b a)) = Some {| i_block := k; i_map := build_map (b_params blk) a |}.
+  fresh_inst P (show_f (FApp b a)) =
+  Some {| i_block := k; i_map := build_map (b_params blk) a; i_generic := negb (strs_eqb a (b_params blk)) |}.
 Proof. exact fresh_inst_flat_l. Qed.
 Print Assumptions impl_instance_binds_parameters.
 
@@ -303,7 +304,7 @@ Print Assumptions resolve_nested_refuted.
 Theorem impl_type_args_nested_refuted :
   impl_type_args (S "Cell<Duo<int, long>>") = Some (S "Cell", [S "Duo<int"; S "long>"]) /\
   fresh_inst [w_cell] (S "Cell<Duo<int, long>>") = None /\
-  fresh_inst [w_cell] (S "Cell<Box<long>>") = Some {| i_block := 0; i_map := [(w_T, S "Box<long>")] |}.
+  fresh_inst [w_cell] (S "Cell<Box<long>>") = Some {| i_block := 0; i_map := [(w_T, S "Box<long>")]; i_generic := true |}.
 Proof. exact impl_type_args_nested_refuted_l. Qed.
 Print Assumptions impl_type_args_nested_refuted.
 
@@ -314,6 +315,13 @@ Theorem error_leaves_context_refuted :
   st' <> st /\ resolve_type_in_context st w_T = S "int" /\ resolve_type_in_context st' w_T = S "long".
 Proof. exact error_leaves_context_refuted_l. Qed.
 Print Assumptions error_leaves_context_refuted.
+
+(* known finding C11-impl-local-struct-of-T *)
+Theorem local_of_parameter_type_refuted :
+  r_out (run_main 20 [w_cell4; w_box] [] (S "Cell<short>") (S "loc") 3) = [S "T"] /\
+  r_out (run_main 20 [w_cell4; w_box] [] (S "Cell<short>") (S "loc") 3) <> [S "short"].
+Proof. exact local_of_parameter_type_refuted_l. Qed.
+Print Assumptions local_of_parameter_type_refuted.
 
 Example cross_instantiation_example :
   r_out (run_main 20 [w_cell3] [] (S "Cell<int>") (S "cross") 3) = [S "int"; S "long"; S "int"; S "int"] /\
